@@ -385,6 +385,12 @@ func replayOnce(e *env, prop string, rf *replayFile, tag string, fullLog bool) (
 	if strings.Contains(wo.stderr, "panic:") || strings.Contains(wo.stderr, "fatal error:") {
 		return "panic", panicSummary(wo.stderr), nil, wo
 	}
+	if wo.code == -2 {
+		// The replay of a scenario that the batch had flagged neither finished nor failed within 45 s
+		// of wall time (runs take milliseconds to a second): e.g. unbounded recursion that was still
+		// growing the stack. Reported as what it is; only seeds that already violated get here.
+		return "crash", "the replay did not finish within 45 s of wall time (the batch run of this scenario ended the worker process); last output:\n" + head(wo.stderr, 3000), nil, wo
+	}
 	return "", "", nil, wo
 }
 
